@@ -113,6 +113,7 @@ SameValue(a, b) ==
   ELSE Num(a) * Den(b) = Num(b) * Den(a)
 
 ToReal(a) == IF a.t = "int" THEN Q(a.v, 1) ELSE a
+ToRealOrErr(a) == IF IsErr(a) THEN a ELSE ToReal(a)
 \* truncation of a rational toward zero
 TruncQ(a) == IF a.t = "int" THEN a ELSE I(TDiv(a.n, a.d))
 \* NINT: round half away from zero
@@ -143,6 +144,8 @@ Intrinsic(f, args) ==
     [] f = "nint" /\ n = 1 /\ IsNum(args[1]) -> NintQ(args[1])
     [] f = "real" /\ n = 1 /\ IsNum(args[1]) -> ToReal(args[1])
     [] f = "merge" /\ n = 3 /\ args[3].t = "log" -> (IF args[3].v THEN args[1] ELSE args[2])
+    \* C library pow(x, y): double result (used when reading text emitted by the C backend)
+    [] f = "pow" /\ n = 2 /\ IsNum(args[1]) /\ IsNum(args[2]) -> ToRealOrErr(PowV(ToReal(args[1]), args[2]))
     [] OTHER -> Err("unsupported")
 
 \* Array elements and references to unknown functions are uninterpreted: a fixed arithmetic
@@ -155,7 +158,7 @@ UF(nm, args) ==
   IF e # {} THEN args[CHOOSE i \in e : \A j \in e : i <= j]
   ELSE IF \E i \in 1..Len(args) : ~IsNum(args[i]) THEN Err("type")
   ELSE I(((WSum(args, Len(args)) + NameCode(nm)) % 11) - 5)
-IntrinsicNames == {"abs", "mod", "modulo", "max", "min", "sign", "int", "nint", "real", "merge"}
+IntrinsicNames == {"abs", "mod", "modulo", "max", "min", "sign", "int", "nint", "real", "merge", "pow"}
 
 RECURSIVE Eval(_, _), EvalSeq(_, _)
 
